@@ -350,3 +350,41 @@ Definition toy_env : env nat Z Z (list Z) := {|
   e_build := fun p => Ok [Z.to_N p] |}.
 
 Definition toy_cfg : cfg := {| cfg_broadcast := false; cfg_ignore_missing := false |}.
+
+(* ---- suite "wiring": every real server class constructed with marker arguments ------------ *)
+
+Fixpoint assoc_s {A} (k : string) (l : list (string * A)) : option A :=
+  match l with
+  | [] => None
+  | (j, v) :: t => if String.eqb j k then Some v else assoc_s k t
+  end.
+
+(* the roles a front-end's handlers read from their server object *)
+Definition required_roles (fe : frontend) : list string :=
+  match fe with
+  | TwTcp | TwUdp => ["context"; "framer"; "ignore_missing_slaves"; "identity"]%string
+  | SyncSerial => ["context"; "framer"; "ignore_missing_slaves"; "broadcast_enable"; "identity"]%string
+  | _ => ["context"; "framer"; "handler"; "ignore_missing_slaves"; "broadcast_enable"; "identity"]%string
+  end.
+
+Record wcase := {
+  wc_server : string; wc_role : string;
+  wc_given : bool;            (* the constructor was handed a marker value for this role *)
+  wc_obs_given : bool;        (* what the handlers will read IS that marker *)
+  wc_obs_default : string }.  (* otherwise: the name of what they will read *)
+
+Definition chk_wiring (W : list (string * list (string * wsrc))) (c : wcase) : bool * bool :=
+  let model :=
+    match assoc_s (wc_server c) W with
+    | Some roles =>
+        match assoc_s (wc_role c) roles with
+        | Some (WOrDefault _ d) | Some (WKwDefault _ d) =>
+            if wc_given c then wc_obs_given c else String.eqb (wc_obs_default c) d
+        | Some (WUpdate _) => if wc_given c then wc_obs_given c else negb (wc_obs_given c)
+        | Some (WBuilt d) => String.eqb (wc_obs_default c) d
+        | None => false
+        end
+    | None => false
+    end in
+  (* PROPERTY: the server serves what the user configured *)
+  (model, if wc_given c then wc_obs_given c else true).
